@@ -72,6 +72,11 @@ class Lc:
         key = keys[0]
         sub = cct.sub[key]
         mna = sub.mna
+        # `cct.solver_method` does not reach the sub-netlists (`expand()` builds them from a new Netlist with the
+        # configured default), so the method is set where MNA._solve reads it; nothing has been solved yet
+        mna.solver_method = solver
+        if hasattr(mna, '_Vdict') or hasattr(mna, '_Idict'):
+            raise ValueError('mna already solved before the solver method was set')
         subs = {}
         for name, val in case['subs'].items():
             subs[name] = S.Rational(val.numerator, val.denominator)
@@ -129,13 +134,14 @@ def run(chk, replay=None):
     quick = chk.tier == 'quick'
     ncases = 60 if quick else 700
     max_nodes = 5 if quick else 7
-    chk.coverage['rule'] = ('random connected netlists (spanning tree of R/C/L/V plus extra R,C,L,V,I,E,G,F,H,TF,GY,TR,AM,O,K,W; '
+    chk.coverage['rule'] = ('random connected netlists (spanning tree of R/C/L/V plus extra R,C,L,V,I,E,G,F,H,TF,GY,TR,AM,O,K,W,TPA/B/G/H/Y/Z,SP*; TL at dc; '
                             'either orientation; numeric and symbolic values sampled at rational points; named nodes) x analysis '
                             '(dc, Laplace step, initial-value, ac); non-trivial = the model matrix is non-singular and Lcapy returns '
                             'a solution; distinct by netlist text + analysis + sample point')
     disagreements = []
     n_cex = 0
     replay_cases = []
+    forced = {}
     if replay:
         import json
         rc = json.load(open(replay))
@@ -144,6 +150,7 @@ def run(chk, replay=None):
             c['subs'] = {k: Fraction(v) for k, v in c['subs'].items()}
             c['omega'] = Fraction(c['omega'])
             replay_cases.append((c, Fraction(rc['input']['spoint']) if rc['input'].get('spoint') else None))
+            forced['solver'] = rc['input'].get('solver')
     corpus_dir = os.path.join(common.VERIF, 'corpus', 'C01')
     if os.path.isdir(corpus_dir):
         import json
@@ -179,7 +186,12 @@ def run(chk, replay=None):
         conv = 'passive'
         solver = 'DM'
         try:
-            got = L.analyse(case, spoint, solver, conv)
+            with common.time_limit(60):
+                got = L.analyse(case, spoint, solver, conv)
+        except common.TimeLimit:
+            chk.count('lcapy-error', 'time-limit')
+            chk.case((tuple(case['lines']), an), False)
+            return
         except Exception as e:   # noqa
             chk.count('lcapy-error', type(e).__name__ + ':' + str(e)[:50])
             chk.case((tuple(case['lines']), an), False)
@@ -248,9 +260,28 @@ def run(chk, replay=None):
                                       'diffs': [str(d) for d in diffs[:4]], 'missing': missing})
         # ---- solver independence (oracle on the real code)
         other = SOLVERS[1 + idx % (len(SOLVERS) - 1)] if quick else None
-        for sm in ([other] if quick else SOLVERS[1:]):
+        if replay and forced.get('solver'):
+            other = forced['solver']
+        if quick or (replay and forced.get('solver')):
+            sms = [other]
+        elif idx % 3 == 0:
+            sms = SOLVERS[1:]
+        else:
+            sms = [SOLVERS[1 + idx % (len(SOLVERS) - 1)]]
+        # QR on a matrix with the symbol s takes minutes; it is exercised on the numeric (dc, ac) systems
+        if not (replay and forced.get('solver')):
+            sms = [m_ for m_ in sms if m_ != 'QR' or a in ('dc', 'ac')] or ['LU']
+        # the alternative solvers run on the netlist with its symbolic element values replaced by their numbers
+        # (LU/QR on several symbols take minutes); the result must equal the DM result sampled at those numbers
+        ncase = dict(case, subs={}, lcapy=[ml if ll.split()[0] in case['subs'] else ll
+                                           for ml, ll in zip(case['lines'], case['lcapy'])])
+        for sm in sms:
             try:
-                got2 = L.analyse(case, spoint, sm, conv)
+                with common.time_limit(5 if quick else 10):
+                    got2 = L.analyse(ncase, spoint, sm, conv)
+            except common.TimeLimit:
+                chk.count('solver-error', '%s:time-limit' % sm)
+                continue
             except Exception as e:   # noqa
                 chk.count('solver-error', '%s:%s' % (sm, type(e).__name__))
                 continue
@@ -265,7 +296,11 @@ def run(chk, replay=None):
         if (not quick) or idx % 5 == 0:
             for cv in ('hybrid', 'active'):
                 try:
-                    got3 = L.analyse(case, spoint, 'DM', cv)
+                    with common.time_limit(60):
+                        got3 = L.analyse(case, spoint, 'DM', cv)
+                except common.TimeLimit:
+                    chk.count('lcapy-error', 'conv:time-limit')
+                    continue
                 except Exception as e:   # noqa
                     chk.count('lcapy-error', 'conv:' + type(e).__name__)
                     continue
@@ -287,7 +322,7 @@ def run(chk, replay=None):
         idx += 1
     if not replay:
         # directed stream: every component kind certainly present, terminals off ground, both orientations
-        ndirected = 4 if quick else 16
+        ndirected = 3 if quick else 16
         for kind in gen_netlist.DIRECTED_KINDS:
             for j in range(ndirected):
                 case = gen_netlist.directed_case(rng, kind, floating=(j % 2 == 0))
@@ -296,7 +331,7 @@ def run(chk, replay=None):
                 one(case, spoint, idx)
                 idx += 1
         for k in range(ncases):
-            case = gen_netlist.random_case(rng, max_nodes=max_nodes)
+            case = gen_netlist.random_case(rng, max_nodes=max_nodes, ext=True)
             spoint = None
             if case['analysis'] in ('s', 'ivp'):
                 spoint = Fraction(rng.randint(1, 12), rng.randint(1, 5))
